@@ -86,10 +86,12 @@ func (f *Func) Redefine(opts ...Arg) (*Func, error) {
 		// Call
 		result := f.Call(callArgs...)
 
-		// If we had an error, then we return the error. We always define
-		// our new functions to return a final error type so set that and
-		// return.
-		if err := result.Err(); err != nil {
+		// If the call itself failed (arguments that can't be satisfied, a
+		// failing converter) there are no results: return the error. We
+		// always define our new functions to return a final error type so
+		// set that and return. An error returned by the original function
+		// is part of its own results, which we return as they are below.
+		if err := result.buildErr; err != nil {
 			retval := make([]reflect.Value, len(out))
 			for i, t := range out {
 				retval[i] = reflect.Zero(t)
